@@ -37,7 +37,8 @@ PROPS = {
     "C01": {"units": ALL_PARSER, "assumes": ["A1", "A2", "A3", "A4", "A5", "A6", "A8", "V"], "claim": ""},
     "C06": {"units": ALL_PARSER, "assumes": ["A1", "A2", "A3", "A4", "A5", "A6", "A8", "H", "V"], "claim": ""},
     "C09": {"units": ALL_PARSER, "assumes": ["A1", "A2", "A3", "A4", "A5", "A6", "A8", "V"], "claim": ""},
-    "C11": {"units": ALL_PARSER, "assumes": ["A1", "A2", "A3", "A4", "A5", "A6", "A8", "V"], "claim": ""},
+    "C11": {"units": ALL_PARSER, "assumes": ["A1", "A2", "A3", "A4", "A5", "A6", "A8", "V"],
+            "claim": "T1 (tree == g_build(abstract events)) + theorem_norm (g_build depends only on the normal form of the stream: ignorable events dropped, CDATA == text, text content erased, <x/> == <x></x>); attribute values are not part of the event model"},
 }
 
 # messages of obligations that Verus generates by itself (no contract clause to tag): panic freedom / termination
